@@ -232,6 +232,20 @@ Theorem C16_refresh_order_independent : forall c s report,
 Proof. exact refresh_order_independent. Qed.
 Print Assumptions C16_refresh_order_independent.
 
+(* 19. The hand-over of a batch: flush starts the callback with the window's frames and begins a new
+   buffer; the callback reads later.  For every interleaving of arriving frames, timer expiries and
+   callback reads, the batches the callbacks read (followed by those still waiting) are exactly the windows
+   that were flushed, in order - nothing that arrives after a flush changes the batch of that flush. *)
+Theorem C16_batch_handover : forall ops,
+  let '(_, pending, seen) := drun ops ([], [], []) in seen ++ pending = windows_of ops [].
+Proof. intros ops. exact (handover_exact ops [] [] []). Qed.
+Print Assumptions C16_batch_handover.
+
+Example C16_handover_nonvacuous :
+  drun [DFrame (EStatus 2 7); DFlush; DFrame (EStatus 2 8); DRead; DFlush; DRead] ([], [], [])
+  = ([], [], [[EStatus 2 7]; [EStatus 2 8]]).
+Proof. reflexivity. Qed.
+
 (* ------------------------------------------------------------------------------------------------
    Non-vacuity: the side conditions hold on non-trivial histories (checked by computation through the
    decidable versions of Proofs6.v), and the conclusions are about non-empty rings. *)
